@@ -167,31 +167,31 @@ end Lit
 
 /-- the keyword functions of `Func` -/
 def funcOfKw (k : Str) : Option UnOp :=
-  if k = "int".toList then some .toInt
-  else if k = "float".toList then some .toFloat
-  else if k = "dec".toList then some .toDec
-  else if k = "date_time".toList then some .dateTime
-  else if k = "datetime".toList then some .dateTime
-  else if k = "duration".toList then some .duration
-  else if k = "is_some".toList then some .some
-  else if k = "is_none".toList then some .isNone
-  else if k = "some".toList then some .some
-  else if k = "none".toList then some .isNone
-  else if k = "to_upper".toList then some .upper
-  else if k = "to_lower".toList then some .lower
-  else if k = "uppercase".toList then some .upper
-  else if k = "lowercase".toList then some .lower
-  else if k = "trim".toList then some .trim
-  else if k = "round".toList then some .round
-  else if k = "floor".toList then some .floor
-  else if k = "fract".toList then some .fract
-  else if k = "year".toList then some .year
-  else if k = "month".toList then some .month
-  else if k = "week".toList then some .week
-  else if k = "day".toList then some .day
-  else if k = "hour".toList then some .hour
-  else if k = "minute".toList then some .minute
-  else if k = "second".toList then some .second
+  if k = ['i', 'n', 't'] then some .toInt
+  else if k = ['f', 'l', 'o', 'a', 't'] then some .toFloat
+  else if k = ['d', 'e', 'c'] then some .toDec
+  else if k = ['d', 'a', 't', 'e', '_', 't', 'i', 'm', 'e'] then some .dateTime
+  else if k = ['d', 'a', 't', 'e', 't', 'i', 'm', 'e'] then some .dateTime
+  else if k = ['d', 'u', 'r', 'a', 't', 'i', 'o', 'n'] then some .duration
+  else if k = ['i', 's', '_', 's', 'o', 'm', 'e'] then some .some
+  else if k = ['i', 's', '_', 'n', 'o', 'n', 'e'] then some .isNone
+  else if k = ['s', 'o', 'm', 'e'] then some .some
+  else if k = ['n', 'o', 'n', 'e'] then some .isNone
+  else if k = ['t', 'o', '_', 'u', 'p', 'p', 'e', 'r'] then some .upper
+  else if k = ['t', 'o', '_', 'l', 'o', 'w', 'e', 'r'] then some .lower
+  else if k = ['u', 'p', 'p', 'e', 'r', 'c', 'a', 's', 'e'] then some .upper
+  else if k = ['l', 'o', 'w', 'e', 'r', 'c', 'a', 's', 'e'] then some .lower
+  else if k = ['t', 'r', 'i', 'm'] then some .trim
+  else if k = ['r', 'o', 'u', 'n', 'd'] then some .round
+  else if k = ['f', 'l', 'o', 'o', 'r'] then some .floor
+  else if k = ['f', 'r', 'a', 'c', 't'] then some .fract
+  else if k = ['y', 'e', 'a', 'r'] then some .year
+  else if k = ['m', 'o', 'n', 't', 'h'] then some .month
+  else if k = ['w', 'e', 'e', 'k'] then some .week
+  else if k = ['d', 'a', 'y'] then some .day
+  else if k = ['h', 'o', 'u', 'r'] then some .hour
+  else if k = ['m', 'i', 'n', 'u', 't', 'e'] then some .minute
+  else if k = ['s', 'e', 'c', 'o', 'n', 'd'] then some .second
   else none
 
 inductive EqOp where | eq | neq | gt | lt | gte | lte
@@ -216,7 +216,7 @@ def bitOpOf (s : Str) : Option BinOp :=
 /-- the binary operator tokens of level `k` (1 = and/or … 5 = bitwise) and the node each builds -/
 def binOpAt (k : Nat) (t : Tok) : Option (Expr → Expr → Expr) :=
   match k, t with
-  | 1, .kw w => if w = "and".toList then some Expr.and else if w = "or".toList then some Expr.or else none
+  | 1, .kw w => if w = ['a', 'n', 'd'] then some Expr.and else if w = ['o', 'r'] then some Expr.or else none
   | 2, .p s => (eqOpOf s).map mkEq
   | 3, .p s => (addOpOf s).map (fun o => Expr.bin o)
   | 4, .p s => (multOpOf s).map (fun o => Expr.bin o)
@@ -232,17 +232,17 @@ def pIf (orc : Oracle) : Nat → List Tok → PR Expr
   | f + 1, ts =>
     match ts with
     | .kw k :: r =>
-      if k = "if".toList then
+      if k = ['i', 'f'] then
         match pIf orc f r with
         | .ok c r1 =>
           match r1 with
           | .kw k1 :: r2 =>
-            if k1 = "then".toList then
+            if k1 = ['t', 'h', 'e', 'n'] then
               match pIf orc f r2 with
               | .ok t r3 =>
                 match r3 with
                 | .kw k2 :: r4 =>
-                  if k2 = "else".toList then
+                  if k2 = ['e', 'l', 's', 'e'] then
                     match pIf orc f r4 with
                     | .ok e r5 => .ok (.ite c t e) r5
                     | other => other
@@ -293,11 +293,11 @@ def pContainsTail (orc : Oracle) : Nat → List Tok → PR Expr
     | .ok l r =>
       match r with
       | .kw k :: r1 =>
-        if k = "contains".toList then
+        if k = ['c', 'o', 'n', 't', 'a', 'i', 'n', 's'] then
           match pIndex orc f r1 with
           | .ok x r2 => .ok (.bin .contains l x) r2
           | other => other
-        else if k = "in".toList then
+        else if k = ['i', 'n'] then
           match pIndex orc f r1 with
           | .ok x r2 => .ok (.bin .contains x l) r2
           | other => other
@@ -358,13 +358,13 @@ def pTerm (orc : Oracle) : Nat → List Tok → PR Expr
           | other => other
         | none =>
           -- true( / false( : a literal followed by a parenthesis
-          if k = "true".toList then .ok (.lit (.bool true)) r
-          else if k = "false".toList then .ok (.lit (.bool false)) r
+          if k = ['t', 'r', 'u', 'e'] then .ok (.lit (.bool true)) r
+          else if k = ['f', 'a', 'l', 's', 'e'] then .ok (.lit (.bool false)) r
           else .error
       | _ =>
-        if k = "none".toList then .ok (.lit .none) r
-        else if k = "true".toList then .ok (.lit (.bool true)) r
-        else if k = "false".toList then .ok (.lit (.bool false)) r
+        if k = ['n', 'o', 'n', 'e'] then .ok (.lit .none) r
+        else if k = ['t', 'r', 'u', 'e'] then .ok (.lit (.bool true)) r
+        else if k = ['f', 'a', 'l', 's', 'e'] then .ok (.lit (.bool false)) r
         else .error
     | .ident x :: r =>
       match r with
